@@ -31,6 +31,7 @@ package main
 //   selector, slotarg: see c11_r4.go
 //   ptrarg, cbvar, deepstore: see c11_r5.go
 //   gocall, twins, numedge: see c11_r6.go
+//   history: see c11_r7.go (sequences of conversions in one process)
 //
 // Outside the statement (kept out of the generator's domain or accepted both
 // ways; each place is marked UNSPECIFIED):
@@ -63,6 +64,7 @@ package main
 
 import (
 	"context"
+	"encoding/json"
 	"fmt"
 	"math"
 	"math/rand"
@@ -70,6 +72,8 @@ import (
 	"sort"
 	"strconv"
 	"strings"
+	"syscall"
+	"time"
 
 	"github.com/mattn/anko/env"
 
@@ -251,6 +255,9 @@ var c11BaseTypes = []reflect.Type{
 	// round 6 (appended, so that the index-based picks above stay what they were): the
 	// unsigned targets whose range exceeds int64's, a named one, and containers of them
 	reflect.TypeOf(uintptr(0)), reflect.TypeOf(C11MyU64(0)), reflect.TypeOf([]uint64(nil)), reflect.TypeOf(map[string]uint64(nil)),
+	// round 7 (appended): a non-empty interface of the standard library that named types of
+	// the basic kinds implement (time.Duration, json.Number, the C11R7 types of c11_r7.go)
+	c11r7TStringer,
 }
 
 // extra kinds that only travel (round trip), never a conversion target
@@ -591,6 +598,17 @@ func c11GenGo(r *rand.Rand, t reflect.Type, d int, key bool) reflect.Value {
 			x.Set(reflect.ValueOf(&c11Err{Msg: "e" + strconv.Itoa(r.Intn(100))}))
 		case t == c11TNamer:
 			x.Set(reflect.ValueOf(&C11S{A: int64(r.Intn(100))}))
+		case t == c11r7TStringer:
+			switch r.Intn(3) {
+			case 0:
+				x.Set(reflect.ValueOf(time.Duration(c11IntPicks[r.Intn(len(c11IntPicks))])))
+			case 1:
+				x.Set(reflect.ValueOf(C11R7ErrStr(c11StrPicks[r.Intn(len(c11StrPicks))])))
+			default:
+				x.Set(reflect.ValueOf(C11R7F64(c11FloatPicks[r.Intn(len(c11FloatPicks))])))
+			}
+		case t.NumMethod() > 0:
+			// another non-empty interface type: its nil
 		default:
 			pt := c11IfacePickTypes[r.Intn(len(c11IfacePickTypes))]
 			if key || d > 2 {
@@ -756,6 +774,12 @@ func c11Sources() []c11Src {
 	lit("9223372036854777856.0", "1e19", "1.2e19", "18446744073709549568.0", "9223372036854775807 * 1.5", "9223372036854775808.0", "9223372036854774784.0",
 		"18446744073709551616.0", "-9223372036854775808.0", "4294967296.5", "255.9", "-0.5",
 		"[1e19, 1]", "[9223372036854777856.0, 18446744073709549568.0]", `{"a": 1.2e19}`, `{"a": 1, "b": 18446744073709549568.0}`)
+	// round 7 (appended): Go values of named types of the basic kinds (and of a slice and a
+	// struct type) WITH methods that implement error and / or fmt.Stringer: the cells
+	// "named type -> non-empty interface it implements" next to the cells of the plain values
+	// of the same kind, which have no conversion to that interface and come earlier in the row
+	bind(C11R7Code(7), C11R7ErrStr("es"), syscall.Errno(2), C11R7Bool(true), C11R7U8(9), time.Duration(1500*time.Millisecond), json.Number("12"),
+		C11R7I64(-4), C11R7F64(2.5), C11R7Errs{"x", "y"}, C11R7Rec{A: 1, B: "r"})
 	return s
 }
 
@@ -2447,7 +2471,9 @@ func init() {
 			nGo := 40
 			// the -race flavour of cbconc costs a second build of the worker: thorough tier only
 			nNamed, nConc, nConcRace, namedChunk := len(c11NamedTypes), 3*len(c11ConcVariants), 0, 1
+			nHist := c11r7Modes * len(c11r7Fams)
 			if tier == "thorough" {
+				nHist *= 40
 				nCalls, nMember, nCb, rtRounds = 40000, 6000, 15000, 20
 				nSel, nSlot = 300, 5000
 				nPtr, nCbv, nDeep = 40*c11r5Dims, 100, 3000
@@ -2471,6 +2497,7 @@ func init() {
 					"gocall: scripts of 3-8 statements - `go f(..)`, plain `r = f(..)`, `for i = 0; i < 3; i++ { go f(.., k + i, ..) }` - over three manufactured Go functions (PRNG signatures, 1/3 variadic) and four methods of a Go struct (pointer and value receiver, through a pointer and a value), plain and spread, the callee of the previous statement re-used half of the time, arguments pairwise distinct over the script; half of the cases with GOMAXPROCS(1); the host waits for the started calls and compares what every Go function received with the calls written for it (6 scripts per case). " +
 					"twins: groups of DISTINCT Go types with the same printed name (struct types declared with the same name in different functions, with other field positions / field types / embedded method sets; *text/template.Template and *html/template.Template) used one after the other in one process, every order once (one process per case): every exported field read through 4 holders, every int64 / string / float64 / bool field written through 3 pointer holders, every recording method called through 3 holders; the templates through Name, Lookup, Execute, ExecuteTemplate and the Tree field against Go's own calls. " +
 					"numedge: every script-number source of the conv matrix (edges of all integer ranges up to 2^64, fractions, negative, NaN, infinities) x " + strconv.Itoa(c11r6NumsT.NumField()) + " numeric target types (all widths, uintptr, named) as the result of a callback (alone and as first of two results), stored into a field through a pointer, and rotated through the parameters and variadic tail of two methods (complete; one case per target type). " +
+					"history: ONE PROCESS per case drives " + strconv.Itoa(c11r7Steps) + " conversions one after the other over a family of neighbouring types (" + strconv.Itoa(len(c11r7Fams)) + " families: the types of one kind side by side - plain, named without methods, named with different method sets, standard-library types such as time.Duration / time.Month / os.FileMode / syscall.Errno / json.Number / net.IP / time.Time, pointers to them, struct / interface / named types that print alike and are distinct) x targets (" + strconv.Itoa(len(c11r7Ifaces)) + " interface types with different method sets, the concrete types of the family, a few foreign ones; as parameter type, element type of a slice / map parameter and of a variadic tail) x " + strconv.Itoa(len(c11r7Forms)) + " routes (fixed / second / paired / spread / variadic parameter, element-wise in list and map literals and in typed Go containers of the source's own type, Go identity function, method parameters, callback result alone and first of two, field written through a pointer, slot of a Go []T / map[string]T, a list / map passed, changed and passed again) in " + strconv.Itoa(c11r7Modes) + " orders (PRNG mix, blocks of refusals before blocks of valid conversions, and the opposite); about half of the steps have no conversion; every step is judged by the absolute oracle whatever the process did before (the counters history:valid-after-refusals-for-the-same-target / refusal-after-valid-for-the-same-target count the histories that matter). conv (round 7): the row of sources has Go values of named types with methods (error / fmt.Stringer implementors of the kinds int64, string, uintptr, bool, uint8, float64, a slice and a struct type) and the pool of targets fmt.Stringer. " +
 					"An evaluation is non-trivial when the statement decides the case (conversion exists for all arguments, or none exists for one); distinct = distinct (Go signature, source text, argument values).",
 				Assumptions: []string{"reflect.Type.AssignableTo/ConvertibleTo and reflect.Value.Convert are 'Go's own conversion'",
 					"string->byte/rune parameters, pointer->other-pointer conversions, arrays, over-long spread lists, VM-protocol-typed Go functions are outside the statement and not judged",
@@ -2484,12 +2511,14 @@ func init() {
 					"cbvar: a script function with one parameter in the tail position receives the tail as one list, a variadic script function the values themselves; whether surplus results of a callback are an error or dropped is not judged",
 					"gocall: a go statement is a call that does not wait; the Go function is invoked once with the arguments written at the statement, whatever the script does next. WHEN it is invoked is not judged; the host waits until every call has arrived or every goroutine the script started has ended (runtime.NumGoroutine back at its value before the script), and a call that has not arrived by then is reported as never made; goroutines still alive after 20 s make the case inconclusive. `go` calls of script functions and `go f(&x)` are not generated",
 					"twins: which member a name denotes depends on the type of the value at hand, never on how that type prints; names that are no member of the type at hand are not generated; for a float64 -> integer conversion whose value does not fit the target type Go's result is implementation-specific: numedge and the conv matrix take reflect.Value.Convert on this machine as the reference, as for every other conversion",
+					"history: whether Go's conversion of v to T exists is a matter of the dynamic type of v and of T alone (reflect's AssignableTo / ConvertibleTo of exactly these two types, element-wise for slices and maps), so the verdict on a step never depends on the steps before it; a store into a slot of a Go []T / map[string]T is judged only for a value assignable to T (what a store that needs a conversion does is not judged, no panic may escape); a field write that needs a conversion may be refused with the field unchanged or store Go's conversion (as in phase member); script functions headed for a func type are judged on the call routes only",
 					"kept out of the domain until /repo is repaired (constant c11PendingFix_cyclicToRecursive in c11_r6.go, reported in C11-r6-genuine.md): a script list or map that contains itself handed to a parameter of a recursive Go type (fatal stack overflow of the host)",
 					"kept out of the domain until /repo is repaired or the behaviour is decided (constants c11PendingFix_* in c11_r5.go, reported in C11-r5-genuine.md): `defer f(&x)` (the store is lost), non-nil pointers read back by a for-in loop over a list (the loop binds the pointee), a variadic script function as callback of a variadic func type (the tail arrives as one list)",
 					"kept out of the domain until /repo is repaired (constants c11PendingFix_* in c11_r4.go, reported in C11-r4-genuine.md): a pointer-receiver method that hides a promoted field called on a struct VALUE; a nil of a non-empty interface type read from an addressable typed slot and passed to an interface-typed parameter it is assignable to",
 					"kept out of the domain until /repo is repaired (constants c11PendingFix_* in c11_ext.go, reported in C11-genuine.md): pointer-receiver methods of non-struct named types on non-pointer values, a spread list that has to fill fixed parameters of a variadic function, array-typed parameters, fields promoted through a nil embedded pointer"},
 				Phases: []fw.Phase{
 					{Name: "fixed", Cases: c11NFixed, Chunk: 1, Exhaust: true, TimeoutS: 300},
+					{Name: "history", Cases: nHist, Chunk: 1, TimeoutS: 300},
 					{Name: "conv", Cases: 2 * len(c11Types), Chunk: 4, Exhaust: true, TimeoutS: 900},
 					{Name: "roundtrip", Cases: nAll * rtRounds, Chunk: 16, TimeoutS: 600},
 					{Name: "member", Cases: nMember, Chunk: 25, TimeoutS: 900},
@@ -2549,6 +2578,8 @@ func init() {
 				c11PhaseTwins(c)
 			case "numedge":
 				c11PhaseNumEdge(c)
+			case "history":
+				c11PhaseHistory(c)
 			}
 		},
 	})
